@@ -135,7 +135,69 @@ def check_avp(node, tz=None):
     return "ok", None, vs
 
 
+HDR_BITS = {"R": ("set_request_bit", 0x80), "P": ("set_proxiable_bit", 0x40), "E": ("set_error_bit", 0x20), "T": ("set_retransmitted_bit", 0x10)}
+AVP_BITS = {"M": ("set_mandatory_bit", 0x40), "P": ("set_protected_bit", 0x20)}
+
+
+def check_flag_api(case):
+    """the flag-bit setters are a public way of setting the flags field: after every call that the library accepts, the flags octet
+    (header or AVP) is the previous one with exactly that bit set / cleared; a call it refuses changes nothing; the serialised
+    message carries the final octets"""
+    from bromelia.base import DiameterMessage, DiameterHeader, DiameterAVP
+    errors = common.lib_errors()
+    hf, af = case["hdr_flags"], case["avp_flags"]
+    vendor = case["vendor"]
+    try:
+        hdr = DiameterHeader(flags=hf, command_code=316, application_id=16777251, hop_by_hop=1, end_to_end=2)
+        avp = DiameterAVP(code=99001, vendor_id=vendor, flags=af, data=b"abc")
+        msg = DiameterMessage(hdr, [avp])
+    except (Exception,) + errors as e:
+        return "discard", f"construction refused: {type(e).__name__}", []
+    vs = []
+    for i, (where, bit, state) in enumerate(case["ops"]):
+        obj, table = (msg.header, HDR_BITS) if where == "hdr" else (msg.avps[0], AVP_BITS)
+        meth, mask = table[bit]
+        before = hf if where == "hdr" else af
+        try:
+            getattr(obj, meth)(state)
+            accepted = True
+        except errors:
+            accepted = False
+        except Exception as e:
+            return "ok", None, [V("flag-bit setters fail with a library error or not at all", f"flag-api/{where}/{bit}/foreign-error/{type(e).__name__}", repr(e))]
+        want = ((before | mask) if state else (before & ~mask)) if accepted else before
+        got = obj.get_flags()
+        if got != want:
+            vs.append(V("the flags field is the one set through the flag-bit API", f"flag-api/{where}/{bit}/{'set' if state else 'clear'}/{'accepted' if accepted else 'refused'}-but-wrong",
+                        f"op {i}: {before:#04x} -> {got:#04x}, expected {want:#04x}"))
+            break
+        if where == "hdr":
+            hf = want
+        else:
+            af = want
+    if not vs:
+        ref = rc.enc_msg(1, hf, 316, 16777251, 1, 2, [rc.enc_avp(99001, af, vendor, b"abc")])
+        try:
+            got = msg.dump()
+        except (Exception,) + errors as e:
+            return "ok", None, [V("dump() of a constructed message raises", f"flag-api/dump-raises/{type(e).__name__}", repr(e))]
+        if got != ref:
+            vs.append(V("the serialised message carries the flags as set", "flag-api/" + ("header" if got[:20] != ref[:20] else "avp") + "-bytes",
+                        f"{got.hex()} != {ref.hex()}"))
+    return "ok", None, vs
+
+
+flag_cases = st.builds(
+    lambda hf, v, af, ops: {"kind": "flag-api", "hdr_flags": hf, "vendor": v, "avp_flags": (af & 0x7F) | (0x80 if v is not None else 0), "ops": ops},
+    st.sampled_from([0x00, 0x80, 0x40, 0xC0, 0x20, 0x60, 0x10, 0x90, 0xD0, 0x70, 0x0F, 0x8F]), st.sampled_from([None, None, 10415, 0xFFFFFFFF]),
+    st.integers(0, 255),
+    st.lists(st.one_of(st.tuples(st.just("hdr"), st.sampled_from("RPET"), st.booleans()), st.tuples(st.just("avp"), st.sampled_from("MP"), st.booleans())),
+             min_size=1, max_size=6).map(lambda l: [list(t) for t in l]))
+
+
 def run_case(case):
+    if case.get("kind") == "flag-api":
+        return check_flag_api(case)[2]
     if case.get("kind") == "avp":
         return check_avp(case["node"], case.get("tz"))[2]
     if case.get("kind") == "typed":
@@ -158,6 +220,12 @@ def _collect(shard, seed, n_msgs, sweep_vals):
                    discard=why)
 
     common.hyp_collect(gens.message(depth=3), body, n_msgs, seed)
+
+    def body_flags(case):
+        status, why, vs = check_flag_api(case)
+        col.record(case, vs, nontrivial=len(case["ops"]) >= 2 and status == "ok", classes=["flag-bit-api"], discard=why)
+
+    common.hyp_collect(flag_cases, body_flags, max(40, n_msgs // 2), seed + 4242)
 
     # deterministic sweep: every dictionary class x sweep_vals generated values (sharded by class index)
     rows = refdict.rows()
@@ -216,7 +284,7 @@ def main(ctx):
                           f"thread {k}: {len(seen)} different encodings of one message: {[str(x)[:80] for x in seen]}")], nontrivial=True, classes=["first-use-concurrent"])
     for path, rec in common.load_replays(PID):
         col.record(rec["case"], run_case(rec["case"]), nontrivial=True, classes=["replay"])
-    ctx.required_classes = ["first-use-parked-mid-call", "padded", "vendor", "nested", "depth>=3", "same-name-twice", "generic", "vendor+padded",
+    ctx.required_classes = ["first-use-parked-mid-call", "padded", "vendor", "nested", "depth>=3", "same-name-twice", "generic", "flag-bit-api", "vendor+padded",
                             "nested+padded", "res0", "res1", "res2", "res3", "sweep", "typed", "time-under-non-default-tz"]
     ctx.assumptions = ["in-domain values per class as tabled in vf/gens.py (DESIGN C01); constructions the library refuses "
                        "are counted as discards, not judged", "reference dictionary ref/avp_dictionary.json supplies code/vendor/default flags"]
